@@ -301,6 +301,9 @@ fn c11_strategy() -> impl Strategy<Value = C11Case> {
             Just(PerturbKind::SizePlusAlign),
             Just(PerturbKind::AlignHalf),
             Just(PerturbKind::AlignDouble),
+            Just(PerturbKind::AlignMinus1),
+            Just(PerturbKind::AlignPlus1),
+            Just(PerturbKind::UninitNonCopy),
             Just(PerturbKind::UninitNonCopy)
         ],
         prop_oneof![Just(EntryKind::Override), Just(EntryKind::CopyDatum), Just(EntryKind::Dynamic)],
@@ -357,7 +360,7 @@ fn c11_check(ext: &Externs, dir: &std::path::Path, tag: &str, case: &C11Case) ->
     }
     let kind_name = match case.kind {
         PerturbKind::SizeMinus1 | PerturbKind::SizePlus1 | PerturbKind::SizePlusAlign => "size",
-        PerturbKind::AlignHalf | PerturbKind::AlignDouble => "align",
+        PerturbKind::AlignHalf | PerturbKind::AlignDouble | PerturbKind::AlignMinus1 | PerturbKind::AlignPlus1 => "align",
         PerturbKind::UninitNonCopy => "uninit-non-copy",
     };
     if p.ok {
